@@ -148,11 +148,11 @@ class kFlowDecompCycles(walkmodel.AbstractWalkModelDiGraph):
         self.subset_constraints_coverage = subset_constraints_coverage
         
         self.flow_attr = flow_attr
-        self.w_max = self.k * self.weight_type(
-            self.G.get_max_flow_value_and_check_non_negative_flow(
-                flow_attr=self.flow_attr, edges_to_ignore=self.edges_to_ignore
-            )
+        max_flow_value = self.G.get_max_flow_value_and_check_non_negative_flow(
+            flow_attr=self.flow_attr, edges_to_ignore=self.edges_to_ignore
         )
+        # (int() would truncate a flow value such as 56.99999999999999 and cut off the weight 57)
+        self.w_max = self.k * (math.ceil(max_flow_value) if self.weight_type == int else float(max_flow_value))
 
         self.pi_vars = {}
         self.path_weights_vars = {}
